@@ -124,6 +124,15 @@ Theorem C20_blup_sound : forall Z r Pinv b,
 Proof. exact blup2_normal_eq. Qed.
 Print Assumptions C20_blup_sound.
 
+(** the solution of the normal equations is the minimiser of  ||r - Z b||^2 + b' Psi^-1 b  (Psi^-1 symmetric,
+    positive semi-definite): the mode, hence the mean, of the Gaussian conditional law of b given r *)
+Theorem C20_penalised_ls_optimal : forall Z r P bh,
+  length Z = length r -> m12 P == m21 P -> (forall v, 0 <= quad P v) ->
+  mat_apply_eq (madd (ZtZ Z) P) bh (Ztr Z r) ->
+  forall b, objective Z r P bh <= objective Z r P b.
+Proof. exact penalised_ls_optimal. Qed.
+Print Assumptions C20_penalised_ls_optimal.
+
 (** the shortcut of the random-intercept model is the same formula with the single column Z = (1,...,1)' ... *)
 Theorem C20_intercept_special_case : forall r pinv,
   res_Qeq (intercept_re r pinv) (blup1 (repeat 1 (length r)) r pinv) /\
